@@ -221,6 +221,19 @@ func walkerInputs() []string {
 		"object Foo {\n  name = [1, 2]\n}\n",
 		"object Foo {\n  | a description\n  | on two lines\n  field f string | trailing description\n}\n",
 		"enum Status {\n  option A | first\n  option B {\n    info.color = \"red\"\n    info.color = \"blue\"\n  }\n}\n",
+		// the map container of the walker (Enum.Option.info is the only map the j5s schema reaches)
+		"enum Status {\n  option A {\n    info {\n      color = \"red\"\n    }\n  }\n}\n",
+		"enum Status {\n  option A {\n    info color {\n    }\n  }\n}\n",
+		"enum Status {\n  option A {\n    info.color.deep = \"red\"\n  }\n}\n",
+		"enum Status {\n  option A {\n    info.color += \"red\"\n  }\n}\n",
+		"enum Status {\n  option A {\n    info = \"red\"\n  }\n}\n",
+		"enum Status {\n  option A {\n    info.color = [\"a\", \"b\"]\n  }\n}\n",
+		"enum Status {\n  option A {\n    info.color = 1\n    info.size = true\n  }\n}\n",
+		"enum Status {\n  option A {\n    info.color {\n    }\n  }\n}\n",
+		"enum Status {\n  option A {\n    info.color.deep {\n      x = 1\n    }\n  }\n}\n",
+		"enum Status {\n  option A {\n    info. = \"red\"\n  }\n}\n",
+		"enum Status {\n  option A {\n    info.color ! = \"red\"\n  }\n}\n",
+		"enum Status {\n  option A {\n    info.\"quoted key\" = \"red\"\n  }\n}\n",
 		"enum Status {\n  option A\n  prefix = 7\n}\n",
 		"object Foo {\n  field f object:foo.v1.Bar\n  field g object:bar.v1.sub.Baz\n  field h key:id62:extra\n}\n",
 		"object Foo {\n  field f object:\"quoted\"\n}\n",
